@@ -402,7 +402,9 @@ def fault_trunc(data, o, rng, k=None):
 def fault_append(data, o, rng, suffix=None):
     if suffix is None:
         r = rng.random()
-        if r < 0.4:
+        if r < 0.12:
+            suffix = b"\x00" * rng.choice((1, 4, 4))      # what mssim appends to every response
+        elif r < 0.4:
             suffix = bytes(rng.randrange(256) for _ in range(rng.randint(1, 6)))
         elif r < 0.7:
             suffix = data[:rng.randint(1, max(1, len(data)))]
